@@ -77,6 +77,10 @@ def errName : Err → String
   | .undefinedAttribute => "undefinedAttribute" | .missingStandpoint => "missingStandpoint"
   | .missingTarget => "missingTarget" | .missingSecondTarget => "missingSecondTarget"
   | .missingValue => "missingValue" | .badNumber => "badNumber"
+  | .missingPointId => "missingPointId" | .missingCoordinate => "missingCoordinate"
+  | .undefinedPointType => "undefinedPointType" | .badParameter => "badParameter" | .badNetwork => "badNetwork"
+  | .badCovMat => "badCovMat" | .missingCovMat => "missingCovMat" | .badVector => "badVector"
+  | .illegalElement => "illegalElement" | .emptyCoordsPoint => "emptyCoordsPoint"
 
 def step (_ : Unit) (line : String) : Unit × String :=
   match tokens line with
